@@ -338,6 +338,19 @@ def run_property(ctx, prop, replay=None):
                 ctx.fail(f"{prop}:theorem-hypotheses-not-met", f"a plain single-worker graph does not meet the hypotheses (simple_b) of {thm}", d, False)
             ctx.coverage[f"graphs_covered_by_{thm}"] = len(single) - len(outside)
             ctx.coverage["single_worker_graphs"] = len(single)
+    if prop == "C01":
+        # the hypothesis of C01_named_sources_hold_the_states (fw_ok_b: results are attributed to the node's only owner) on every
+        # exported graph
+        from harness.common import coq_failing
+        res = coq_failing(ctx, travgen.IMPORTS, "trav_case", [c["term"] for c in cases], ["trav_fw"],
+                          shard=max(1, len(cases) // 16 + 1), tag="fw", timeout=900)
+        ctx.obligation("hypotheses:fw_ok_b-holds-of-exported-graphs", "correspondence", not res["trav_fw"],
+                       f"{len(res['trav_fw'])} of {len(cases)} exported graphs attribute a node's results to a worker that does not own it")
+        for k in res["trav_fw"][:1]:
+            d = travgen.replay_data(cases[k])
+            d["obligation"] = "hypotheses:fw_ok_b-holds-of-exported-graphs"
+            ctx.fail("C01:theorem-hypotheses-not-met", "an exported graph does not meet the hypothesis (fw_ok_b) of C01_named_sources_hold_the_states", d, False)
+        ctx.coverage["graphs_covered_by_C01_named_sources_hold_the_states"] = len(cases) - len(res["trav_fw"])
     if prop == "C02":
         # the hypotheses of C02_no_path_errors (pwf_b: symmetric edges, root without parents and sole parent of the nodes below it,
         # root registers its own) on every exported graph, any number of workers
